@@ -429,7 +429,7 @@ func (g *histGen) step() {
 }
 
 func runHistories(r *Run, p profile, rule string) {
-	for i := 0; i < p.Histories && len(r.Violations) == 0; i++ {
+	for i := 0; i < p.Histories && r.unknownViolations() == 0; i++ {
 		c := genCfg(r, p.OddConfig && i%2 == 0, i)
 		s := newHSim(r, c)
 		g := &histGen{s: s, p: p}
